@@ -43,7 +43,7 @@ PROPS = {
             "assumptions": ["Model/Conc.v is a hand transcription of BeginTransaction/EndTransaction/unlock (statement-level atomic steps, sequentially consistent memory)", "data-race freedom in the sense of the Go memory model is not claimed (Rollback rewrites metadata a concurrent pack builder reads)", "Document is not driven by the concurrent slices"]},
     "C12": {"slices": CONCSRV, "race": [("concsrv-counter", {"quick": ["-n", "8"], "thorough": ["-n", "40"]}), ("concsrv-list", {"quick": ["-n", "8"], "thorough": ["-n", "40"]})],
             "race_scope": "orda/server/",
-            "trusted": SRV_TRUST + ["the Go scheduler and race detector: schedules of the real server are sampled (2..16 simultaneous calls on 16 cores), the theorem quantifies over all schedules of the model", "LocalLock (a CAS mutex with a lease timeout) is used, not the Redis lock"],
+            "trusted": SRV_TRUST + ["the Go scheduler and race detector: schedules of the real server are sampled (2..16 calls on 16 cores, released at the same instant or staggered by 0..4 ms), the theorem quantifies over all schedules of the model", "LocalLock (a CAS mutex with a lease timeout) is used, not the Redis lock"],
             "assumptions": ["Model/SrvLock.v is a hand transcription of the handler's TryLock / critical section / Unlock; one storage command is one atomic step", "storage commands on documents of different datatypes commute (hypothesis of the serializability theorem; validated by replaying real concurrent rounds on the sequential model)", "PatchDocument is not driven (Document is not modelled)"]},
     "C13": {"slices": WIRE + REALTIME, "trusted": SRV_TRUST + ["realtime slices: real gRPC on the loopback interface and the in-process MQTT broker, which can drop and refuse client connections for a moment (the subscription of the notification topic then fails in the exchange that subscribes the datatype)"], "assumptions": ["handlers of one datatype run one at a time"]},
     "C16": {"slices": WIRE, "trusted": SRV_TRUST, "assumptions": ["liveness of the Go code (no hang, no crash) is tested, not proved"]},
